@@ -246,14 +246,14 @@ structure Observation where
   deriving Repr, Inhabited, DecidableEq
 
 structure ObsVerdict where
-  range : Bool         -- 0 ≤ a ≤ 1
+  range : Bool         -- 0 ≤ a ≤ 1, for both argument orders
   symm : Bool          -- a12 = a21
   self : Bool          -- same ∧ extentPos → a12 = 1
   disjoint : Bool      -- disjoint → a12 = 0
   deriving Repr, Inhabited, DecidableEq
 
 def judgeObs (o : Observation) : ObsVerdict :=
-  { range := decide (0 ≤ o.a12) && decide (o.a12 ≤ 1)
+  { range := decide (0 ≤ o.a12) && decide (o.a12 ≤ 1) && decide (0 ≤ o.a21) && decide (o.a21 ≤ 1)
     symm := decide (o.a12 = o.a21)
     self := !(o.same && o.extentPos) || decide (o.a12 = 1)
     disjoint := !o.disjoint || decide (o.a12 = 0) }
